@@ -18,13 +18,13 @@ ID = "C13"
 RULE = ("annotated simple networks: (a) clean motif networks from the harness builder with 1..3 clique/cycle topologies, 2..4 joint-degree "
         "classes incl. self-paired classes; (b) arbitrary simple graphs (G(n,p), n<=30) with random topology labels and either consistent or "
         "arbitrary annotations (jd[i] >= 1 on incident topologies), incl. a topology with a single edge or none, names with shared prefixes; "
-        "histories: 1..4 get_ejks() calls per extractor, up to 3 extractors interleaved over 1..2 graphs, plus the overall-degree variant; "
+        "histories: 1..4 get_ejks() calls per extractor, up to 3 extractors interleaved over 1..2 graphs, plus the overall-degree variant; in 30% of the repeat calls the network is rewired in place (degree-preserving double edge swaps inside one topology) between two extractions; "
         "non-trivial = a history with >= 2 calls on one extractor and >= 2 distinct excess classes; distinct = SHA-1 of the annotated graph + history")
 ASSUMPTIONS = ["matrix entries compared at 1e-12; an absent key means 0", "the law is stated in terms of the vertex annotation, so arbitrary annotations are in scope"]
 HEADLINE = ["histories", "get_ejks_calls", "hook_hits", "matrices_compared", "entries_compared", "repeat_calls", "self_paired_entries", "overall_variant_checks",
-            "arbitrary_annotation", "builder_networks", "single_edge_topology"]
+            "arbitrary_annotation", "builder_networks", "single_edge_topology", "in_place_rewirings"]
 REQUIRED = {t: {"repeat_calls": 50, "hook_hits": 100, "self_paired_entries": 50, "overall_variant_checks": 50, "arbitrary_annotation": 20,
-                "builder_networks": 20, "single_edge_topology": 5} for t in ("quick", "thorough")}
+                "builder_networks": 20, "single_edge_topology": 5, "in_place_rewirings": 20} for t in ("quick", "thorough")}
 TOL = 1e-12
 NAMESETS = [["2-clique"], ["2-clique", "3-clique"], ["2-clique-blue", "2-clique-red"], ["a", "b", "c"], ["3-clique", "2-clique"],
             ["x-y", "x-y-z"], ["edge", "triangle", "square"], ["t"]]
@@ -164,6 +164,28 @@ def run_case(case):
         gi, ex = extractors[x]
         G, names, kind = graphs[gi]
         T = len(names)
+        if calls_per[x] >= 1 and rng.random() < 0.3 and G.number_of_edges() >= 2:
+            # history: the network object is rewired IN PLACE between two extractions (double edge swaps inside one topology keep
+            # every vertex's per-topology degree, so the annotation stays valid); the extractor holds a reference to the network
+            # and must answer for the network as it is now
+            swapped = 0
+            es = list(G.edges(data=True))
+            for _ in range(20):
+                (a, b, d1), (c, d, d2) = rng.sample(es, 2)
+                if d1[NN.TOPOLOGY] != d2[NN.TOPOLOGY] or len({a, b, c, d}) < 4 or G.has_edge(a, d) or G.has_edge(c, b):
+                    continue
+                if not (G.has_edge(a, b) and G.has_edge(c, d)):
+                    continue
+                attrs1, attrs2 = dict(G.edges[a, b]), dict(G.edges[c, d])
+                G.remove_edge(a, b); G.remove_edge(c, d)
+                G.add_edge(a, d); G.edges[a, d].update(attrs1)
+                G.add_edge(c, b); G.edges[c, b].update(attrs2)
+                swapped += 1
+            if swapped:
+                res.count("in_place_rewirings")
+                refs[gi] = reference(G, names)
+                snaps[gi] = snapshot(G)
+                first = {k: v for k, v in first.items() if extractors[k][0] != gi}
         h0 = _hook["hits"]
         r = sut("get_ejks", ex.get_ejks)
         res.count("get_ejks_calls")
